@@ -14,7 +14,7 @@ use std::sync::Arc;
 pub static META: Meta = Meta {
     id: "C10",
     level: "exploration",
-    rule: "3 WebSocket-style sessions and 1 persistent writer run as real threads against one Handler (tokio multi-thread runtime; each session 12-25 operations: ephemeral fact insert incl. values equal to persistent facts and repeats, a session rule `mine(X)` whose definition differs per session, a session count rule, `.session clear`, queries of r, mine and the count; the writer inserts the unique facts 1000, 1001, ... one per request), with random short pauses; every query answer must equal, for some j with acknowledged-at-call <= j <= begun-at-return, the model answer over {1000..1000+j-1} U own session facts under the session's own rules; after the run the persistent relation holds exactly the writer's facts, no persistent rule exists, and a session-less request sees no ephemeral fact or rule; request-local programs (fact/rule + query in one request) are checked the same way and must leave nothing behind; distinct = history; non-trivial = history with >= 5 queries overlapping writer activity",
+    rule: "3 WebSocket-style sessions and 1 persistent writer run as real threads against one Handler (tokio multi-thread runtime; each session 12-25 operations: ephemeral fact insert incl. values equal to persistent facts and repeats, a session rule `mine(X)` whose definition differs per session, a session count rule, `.session clear`, queries of r, mine and the count; the writer follows a fixed script of single-fact requests: insert the next fresh value 1000, 1001, ... or delete a value it inserted earlier), with random short pauses; every query answer must equal, for some j with acknowledged-at-call <= j <= begun-at-return, the model answer over (persistent relation after the writer's first j requests) U own session facts under the session's own rules; after the run the persistent relation holds exactly the writer's facts, no persistent rule exists, and a session-less request sees no ephemeral fact or rule; request-local programs (fact/rule + query in one request) are checked the same way and must leave nothing behind; distinct = history; non-trivial = history with >= 5 queries overlapping writer activity",
     assumptions: &["boundary stamps (writer's begun/acknowledged counters) are read by the session thread right before the call and right after the return", "threads are free-running (handler work runs on tokio's blocking pool, outside the scheduler's control)"],
     floor: 20,
     watchdog: (60_000, 120_000),
@@ -37,7 +37,7 @@ struct Obs {
 }
 
 pub fn run(ctx: &mut Ctx) {
-    let total = ctx.sz(24, 480);
+    let total = ctx.sz(40, 800);
     for k in ctx.cases(total) {
         let mut r = ctx.rng(k);
         let scratch = Scratch::new("c10");
@@ -46,18 +46,40 @@ pub fn run(ctx: &mut Ctx) {
         let h = Arc::new(h);
         let begun = Arc::new(AtomicI64::new(0));
         let acked = Arc::new(AtomicI64::new(0));
-        let nwrites = 6 + r.below(8) as i64;
+        // writer script: insert the next fresh value, or delete a value it inserted earlier; states[j] is
+        // the persistent relation after the first j operations
+        let nwrites = 8 + r.below(10) as i64;
+        let mut wops: Vec<(bool, i64)> = Vec::new();
+        let mut states: Vec<BTreeSet<i64>> = vec![BTreeSet::new()];
+        let mut next = 0i64;
+        for _ in 0..nwrites {
+            let mut cur = states.last().cloned().unwrap_or_default();
+            if !cur.is_empty() && r.chance(1, 3) {
+                let live: Vec<i64> = cur.iter().copied().collect();
+                let v = live[r.below(live.len())];
+                wops.push((false, v));
+                cur.remove(&v);
+            } else {
+                let v = 1000 + next;
+                next += 1;
+                wops.push((true, v));
+                cur.insert(v);
+            }
+            states.push(cur);
+        }
+        let states = Arc::new(states);
         let obs: Arc<parking_lot::Mutex<Vec<Obs>>> = Arc::new(parking_lot::Mutex::new(Vec::new()));
         let mut threads = Vec::new();
         {
             let (h, begun, acked) = (Arc::clone(&h), Arc::clone(&begun), Arc::clone(&acked));
             let pause = r.below(3) as u64;
             threads.push(std::thread::spawn(move || {
-                for i in 0..nwrites {
+                for (ins, v) in wops {
                     begun.fetch_add(1, Ordering::SeqCst);
-                    if h.exec("default", &format!("+r({})", 1000 + i)).is_ok() {
-                        acked.fetch_add(1, Ordering::SeqCst);
+                    if h.exec("default", &format!("{}r({v})", if ins { '+' } else { '-' })).is_err() {
+                        break;
                     }
+                    acked.fetch_add(1, Ordering::SeqCst);
                     std::thread::sleep(std::time::Duration::from_millis(pause));
                 }
             }));
@@ -141,7 +163,7 @@ pub fn run(ctx: &mut Ctx) {
                 break;
             };
             let ok = (o.lo..=o.hi).any(|j| {
-                let mut base: BTreeSet<i64> = (0..j).map(|i| 1000 + i).collect();
+                let mut base: BTreeSet<i64> = states[(j.max(0) as usize).min(states.len() - 1)].clone();
                 base.extend(o.facts.iter().copied());
                 match o.query.as_str() {
                     "?r(X)" => ans.iter().copied().collect::<BTreeSet<i64>>() == base && ans.len() == base.len(),
@@ -177,7 +199,7 @@ pub fn run(ctx: &mut Ctx) {
         if !bad {
             // nothing ephemeral may be left behind or have reached persistent state
             let persistent: BTreeSet<i64> = dump_facts(&h.h.get_storage(), "default").ok().and_then(|f| f.get("r").map(|v| v.iter().filter_map(|t| t.values()[0].as_i64()).collect())).unwrap_or_default();
-            let want: BTreeSet<i64> = (0..acked.load(Ordering::SeqCst)).map(|i| 1000 + i).collect();
+            let want: BTreeSet<i64> = states[(acked.load(Ordering::SeqCst) as usize).min(states.len() - 1)].clone();
             if persistent != want {
                 ctx.violation(k, "C10:session-operation-changed-persistent-facts", format!("persistent r = {persistent:?}, the writer's acknowledged facts are {want:?}"), json!({}));
                 bad = true;
